@@ -60,10 +60,26 @@ def main():
     meta["confirmed"] = confirmed
     # --- 2. our checks against it -------------------------------------------------------------------
     detections = {}
-    if sh(f"git -C {REPO} status --porcelain --untracked-files=no").stdout.strip():
+    if os.environ.get("SEEDED_SCRATCH") == "1":
+        # same verdict without touching /repo: the patch is applied to a scratch worktree of /repo HEAD and the
+        # current simulator sources are built against that tree (scripts/par_eval.py patch)
+        for p in [prop] + extra:
+            t0 = time.time()
+            r = sh(f"cd {ROOT} && scripts/par_eval.py patch {patch} {p}")
+            line = next((l for l in r.stdout.splitlines() if l.startswith(p + " exit")), "")
+            ex = int(line.split()[2]) if line else 2
+            clauses = [c.strip(" '[],") for c in line.split("[", 1)[1].split("]")[0].split("', '")] if "[" in line else []
+            clauses = [c for c in clauses if c]
+            detections[p] = {"exit": ex, "clauses": clauses[:4], "detail": "", "secs": round(time.time() - t0, 1)}
+            if ex not in (0, 1):
+                detections[p]["tail"] = r.stdout[-500:]
+            note(f"scratch worktree of /repo HEAD + patch.diff; sim {p} quick (scripts/par_eval.py patch)", f"exit {ex}" + (f" {clauses[0]}" if clauses else ""))
+    elif sh(f"git -C {REPO} status --porcelain --untracked-files=no").stdout.strip():
         print("refusing: /repo dirty"); sys.exit(2)
     mutroot = os.path.join(ROOT, "target", "seedroot")
     try:
+        if os.environ.get("SEEDED_SCRATCH") == "1":
+            raise StopIteration
         r = sh(f"git -C {REPO} apply {patch}")
         if r.returncode != 0:
             print("patch does not apply to /repo:", r.stdout); sys.exit(1)
@@ -80,9 +96,12 @@ def main():
             if r.returncode not in (0, 1):
                 detections[p]["tail"] = r.stdout[-500:]
             note(f"git -C /repo apply patch.diff; ./check {p} quick; git -C /repo checkout -- .", f"exit {r.returncode}" + (f" {clauses[0]}" if clauses else ""))
+    except StopIteration:
+        pass
     finally:
-        sh(f"git -C {REPO} checkout -- .")
-        shutil.rmtree(mutroot, ignore_errors=True)
+        if os.environ.get("SEEDED_SCRATCH") != "1":
+            sh(f"git -C {REPO} checkout -- .")
+            shutil.rmtree(mutroot, ignore_errors=True)
     meta["detected_by"] = [p for p, d in detections.items() if d["exit"] == 1]
     meta["checks"] = detections
     notes = open(os.path.join(out, "notes.md")).read() if os.path.exists(os.path.join(out, "notes.md")) else ""
